@@ -422,7 +422,7 @@ fn decoder_types() -> Vec<(&'static str, Vec<&'static str>, Vec<&'static str>)> 
         ("Int", vec!["1"], vec![]),
         ("ByteArray", vec!["#\"00\""], vec![]),
         ("Bool", vec!["True", "False"], vec!["expect True: @ = d\n  1"]),
-        ("Void", vec!["Void"], vec![]),
+        ("Void", vec!["Void"], vec!["expect Void: @ = d\n  1"]),
         ("Data", vec![], vec![]),
         ("List<Int>", vec!["[1, 2]"], vec!["expect [h, ..]: @ = d\n  h"]),
         ("List<Data>", vec![], vec![]),
@@ -430,7 +430,7 @@ fn decoder_types() -> Vec<(&'static str, Vec<&'static str>, Vec<&'static str>)> 
         ("List<Void>", vec!["[Void]"], vec![]),
         ("List<List<Bool>>", vec!["[[True], []]"], vec![]),
         ("List<(Int, Bool)>", vec!["[(1, True)]"], vec![]),
-        ("Option<Bool>", vec!["Some(True)", "None"], vec!["expect Some(x): @ = d\n  if x {\n    1\n  } else {\n    0\n  }"]),
+        ("Option<Bool>", vec!["Some(True)", "None"], vec!["expect Some(x): @ = d\n  if x {\n    1\n  } else {\n    0\n  }", "expect None: @ = d\n  1"]),
         ("Option<Void>", vec!["Some(Void)"], vec![]),
         ("Option<Option<Bool>>", vec!["Some(Some(False))", "Some(None)"], vec![]),
         ("Option<Pair<Int, Bool>>", vec!["Some(Pair(1, True))"], vec![]),
@@ -453,7 +453,7 @@ fn decoder_types() -> Vec<(&'static str, Vec<&'static str>, Vec<&'static str>)> 
         ("List<Pairs<Int, Bool>>", vec!["[[Pair(1, True)], []]"], vec![]),
         ("Proposal", vec!["Proposal { id: 1, votes: [Pair(#\"aa\", True)] }"], vec!["expect Proposal { votes, .. }: @ = d\n  when votes is {\n    [Pair(_, v), ..] ->\n      if v {\n        1\n      } else {\n        0\n      }\n    [] -> 2\n  }"]),
         ("Wrap", vec!["Wrap { flag: True, unit: Void, p: Pair(1, False) }"], vec!["expect Wrap { p, .. }: @ = d\n  p.1st"]),
-        ("E", vec!["X(True)", "Y(Void, 1)", "Z"], vec!["expect X(b): @ = d\n  if b {\n    1\n  } else {\n    0\n  }"]),
+        ("E", vec!["X(True)", "Y(Void, 1)", "Z"], vec!["expect X(b): @ = d\n  if b {\n    1\n  } else {\n    0\n  }", "expect Z: @ = d\n  1", "expect Y(_, n): @ = d\n  n", "expect Y(..): @ = d\n  1"]),
         ("List<E>", vec!["[X(False), Z]"], vec![]),
         ("Option<Wrap>", vec!["Some(Wrap { flag: False, unit: Void, p: Pair(0, True) })"], vec![]),
     ]
